@@ -54,6 +54,11 @@ CHECKS = {
          "its tokens; spreadsheet grids with typed values, empty cells, typed/empty headers, offsets, >100-cell gaps and header rows in xlsx (two independent writers), ods and xls must come back value-equal from A1 with "
          "matching get_dim() and one unit per sheet. Header-row conventions of xlsx/xls are listed known findings and attributed by neutralisation.",
          "Writers (own OOXML/ODF/BIFF8, openpyxl) are trusted; duration/error cell forms are not judged; ragged rows only where the format allows them.", "DESIGN.md §4 C13"),
+ "C14": ("exploration", "Hypothesis generation of image-bearing documents (own PNG/JPEG/GIF/BMP encoders, all package reference forms) in 10 formats + all fixtures; byte/type/size/number/unit oracle",
+         "0..5 generated images of random pixel sizes are placed on 1..3 units of docx, pptx, xlsx, odt, odp, ods, odg, epub, pdf, rtf using relative/parent-relative/absolute/dot reference forms, display size equal to or "
+         "different from the pixel size, permuted part numbering, wrapped RTF hex; iterate_images() must return exactly those images bit-exact, typed, sized, numbered 1..n, on the right unit, and unit views must be "
+         "consistent with the document view (also checked on every fixture).",
+         "Shared media, external and missing images are not generated; per-slide/page numbering (pptx, pdf) and ODF frame-size reporting are listed known findings (pinned by the suite).", "DESIGN.md §4 C14"),
 }
 NOT_YET = {}
 
